@@ -63,7 +63,9 @@ TYPES = [
     # no model record: the iterator state is the triple (c, i, n)
     dict(rust='ToQuads', file=S + 'cubicbez.rs', coq='(CubicBez T * Z * Z)%type', destruct=False,
          ctor='(fun tr_c tr_i tr_n => (tr_c, tr_i, tr_n))',
-         fields=[['c', '(fun tr_s => fst (fst tr_s))'], ['i', '(fun tr_s => snd (fst tr_s))'], ['n', '(fun tr_s => snd tr_s)']]),
+         fields=[['c', '(fun tr_s => fst (fst tr_s))'], ['i', '(fun tr_s => snd (fst tr_s))'], ['n', '(fun tr_s => snd tr_s)']],
+         # consumed (`for (t0, t1, q) in self.to_quads(accuracy)`): `next` until `None`; n - i calls yield an item, one more ends it
+         iter=['to_quads_next', '(f64, f64, QuadBez)', '(S (Z.to_nat (Z.sub (snd $0) (snd (fst $0)))))']),
     # Segments<I>: the remaining elements and the (start, last) pair; no model record (the model folds seg_step)
     dict(rust='Segments', file=S + 'bezpath.rs', coq='(list (PathEl T) * option (Point T * Point T))%type', destruct=False,
          ctor='(fun tr_e tr_s => (tr_e, tr_s))',
@@ -315,14 +317,22 @@ F('quadbez.rs', None, 'approx_parabola_integral', 'approx_parabola_integral', FL
 F('quadbez.rs', None, 'approx_parabola_inv_integral', 'approx_parabola_inv_integral', FL + 'approx_parabola_inv_integral')
 F('quadbez.rs', 'QuadBez', 'estimate_subdiv', 'estimate_subdiv', FL + 'estimate_subdiv')
 F('quadbez.rs', 'QuadBez', 'determine_subdiv_t', 'determine_subdiv_t', FL + 'determine_subdiv_t', model_app='KV.Flatten.determine_subdiv_t $1 $2')
-# the body of flatten's `for el in path` loop as a step function over (start_pt, last_pt, what was handed to the callback)
-# against the model's fl_step (keep = true: /repo carries the C05 repair); the CurveTo arm (ToQuads iterator, quad_buf, a
-# `while` with `break`) is not translated: the statement excludes it
+# the body of flatten's `for el in path` loop as a step function over (start_pt, last_pt, quad_buf, what was handed to the
+# callback) against the model's fl_step (keep = true: /repo carries the C05 repair), all five arms.  CurveTo: the consumed
+# ToQuads iterator (tr_drain), quad_buf, the `while target < ..` with `break` under the model's own bound n + 1 - i; the
+# statement excludes the model's None (that bound reached: "runaway")
+F('bezpath.rs', None, 'TO_QUAD_TOL', 'TO_QUAD_TOL', FL + 'to_quad_tol', const=True)
 F('bezpath.rs', None, 'flatten', 'flatten_step', FL + 'fl_step', bridge='Flatten_bridge', via='simulation',
-  callback_as_push='callback', skip_arms=['CurveTo'],
-  for_body_state=[['start_pt', 'Option<Point>'], ['last_pt', 'Option<Point>'], ['callback', 'Vec<PathEl>']],
+  callback_as_push='callback', fuel_local='n + 1 - i',
+  for_body_state=[['start_pt', 'Option<Point>'], ['last_pt', 'Option<Point>'], ['quad_buf', 'Vec<(QuadBez, FlattenParams)>'], ['callback', 'Vec<PathEl>']],
   for_body_vars=[['el', 'PathEl'], ['tolerance', 'f64'], ['sqrt_tol', 'f64']],
-  stmt='KVBridge.Flatten_bridge.sim_fl_step $0 $1 $2 $3 $4 $5 $G')
+  stmt='KVBridge.Flatten_bridge.sim_fl_step $0 $1 $2 $3 $4 $5 $6 $G')
+# the whole function: `sqrt_tol`, the two `None`s, the empty quad_buf, the `for el in path` as a fold over the path that calls
+# the generated step above (`for_step`; the body is not translated a second time), what was handed to the callback as the
+# result; against the model's flatten (= flatten_gen true) wherever that is defined
+F('bezpath.rs', None, 'flatten', 'flatten', FL + 'flatten', bridge='Flatten_bridge', via='simulation',
+  callback_as_push='callback', for_step='flatten_step',
+  stmt='KVBridge.Flatten_bridge.sim_flatten $0 $1 $2 $G')
 F('vec2.rs', 'Vec2', 'div_exact', 'v_div_exact', TQ + 'v_div_exact')
 F('cubicbez.rs', 'CubicBez', 'approx_quad_control', 'approx_quad_control', TQ + 'approx_quad_control')
 F('line.rs', 'Line', 'crossing_point', 'crossing_point', TQ + 'crossing_point',
@@ -416,7 +426,9 @@ F('bezpath.rs', 'BezPath', 'close_path', 'bp_close_path', PO + 'bp_close_path')
 F('stroke.rs', None, 'round_cap', 'sk_round_cap', SK + 'round_cap_els', extern=True, call='$0 ++ KV.Stroke.round_cap_els $1 $2 $3')
 F('stroke.rs', None, 'round_join', 'sk_round_join', SK + 'round_join_els', extern=True, call='$0 ++ KV.Stroke.round_join_els $1 $2 $3 $4')
 F('stroke.rs', None, 'round_join_rev', 'sk_round_join_rev', SK + 'round_join_rev_els', extern=True, call='$0 ++ KV.Stroke.round_join_rev_els $1 $2 $3 $4')
-F('stroke.rs', None, 'extend_reversed', 'sk_extend_reversed', SK + 'extend_reversed', extern=True, call='$0 ++ KV.Stroke.extend_reversed $1')
+# `for i in (1..elements.len()).rev()` with elements[i - 1], elements[i] against the model's structural recursion (bridge: induction)
+F('stroke.rs', None, 'extend_reversed', 'sk_extend_reversed', SK + 'extend_reversed', usize_as_nat=True, bridge='Stroke_bridge',
+  call='$0 ++ KV.Stroke.extend_reversed $1', model_app='$0 ++ KV.Stroke.extend_reversed $1')
 # model shape differs: the model writes [- f1] where the source has the literal -1.0 (= fofZ (-1)); not provable for an abstract scalar
 F('stroke.rs', None, 'square_cap', 'sk_square_cap', SK + 'square_cap_els', extern=True, call='$0 ++ KV.Stroke.square_cap_els $1 $2 $3')
 F('stroke.rs', 'StrokeCtx', 'do_line', 'sk_do_line', SK + 'do_line', model_app='KV.Stroke.do_line ' + STYLE.replace('$S', '$1') + ' $2 $3 $0')
@@ -438,6 +450,13 @@ F('bezpath.rs', 'PathSeg', 'inv_arclen', 'seg_inv_arclen', trait='ParamCurveArcl
 F('stroke.rs', None, 'dash_impl', 'dash_init_step', DS + 'init_loop', usize_as_nat=True, ret='()', bridge='Dash_bridge', via='simulation',
   while_body_state=[['dash_ix', 'usize'], ['dash_remaining', 'f64'], ['is_active', 'bool']], while_body_vars=[['dashes', 'Vec<f64>']],
   stmt='forall tr_fuel tr_fx, KV.Dash.init_continue tr_fx $1 $2 = true -> KV.Dash.init_loop tr_fx $3 (Datatypes.S tr_fuel) $0 $1 $2 = (let \'(_, tr_i, tr_r, tr_a) := $G in KV.Dash.init_loop tr_fx $3 tr_fuel tr_i tr_r tr_a)')
+# the whole function: dash_ix = 0, dashes[0] - dash_offset, the `while` with the model's fuel (one iteration = the generated step
+# above, `while_step`), and the DashIterator literal: the pair (the constant fields dashes/init_*, the model record); against
+# dash_init (at fixes_all: the loop condition carries the fx_init repair) and init_state, wherever dash_init is InitOk
+# (InitPanic = `dashes[0]` on an empty pattern, InitFuel = the model's fuel ran out)
+F('stroke.rs', None, 'dash_impl', 'dash_impl', DS + 'dash_init', usize_as_nat=True, bridge='Dash_bridge', via='simulation',
+  extra_binders=[['fuel_', 'nat']], fuel='fuel_', while_step='dash_init_step', ambient_out=True, ret='DashIterator',
+  stmt='KVBridge.Dash_bridge.sim_dash_impl fuel_ $0 $1 $2 $G')
 F('stroke.rs', DI, 'get_input', 'dash_get_input', DS + 'get_input', extern=True, call='KV.Dash.get_input arclen_ KV.Dash.fixes_all init_ $0')
 F('stroke.rs', DI, 'reset_phase', 'dash_reset_phase', DS + 'reset_phase', model_app='KV.Dash.reset_phase init_ $0')
 F('stroke.rs', DI, 'handle_closepath', 'dash_handle_closepath', DS + 'handle_closepath', model_app='KV.Dash.handle_closepath KV.Dash.fixes_all init_ $0')
@@ -466,12 +485,22 @@ F('quadbez.rs', None, 'try_t', 'nr_try_t', NR + 'nr_try_t', nested_in='nearest',
   model_app="let '(tr_b, tr_st) := KV.Nearest.nr_try_t $0 $1 ($2, $3) $4 in (tr_b, fst tr_st, snd tr_st)")
 # the model returns [None] where the code would panic ([r_best.unwrap()], unreachable): agreement wherever the model is defined
 F('quadbez.rs', 'QuadBez', 'nearest', 'quad_nearest', NR + 'quad_nearest', trait='ParamCurveNearest', bridge='Nearest_bridge',
-  stmt='match KV.Nearest.quad_nearest $0 $1 with Some tr_r => $G = tr_r | None => True end')
+  stmt='match KV.Nearest.quad_nearest $0 $1 with Some tr_r => $G = tr_r | None => True end',
+  call='match KV.Nearest.quad_nearest $0 $1 with Some tr_r => tr_r | None => (f0, f0) end')
 # ---------------------------------------------------------------- CubicBez::to_quads / ToQuads::next (C17, C09)
 F('cubicbez.rs', 'CubicBez', 'to_quads', 'cubic_to_quads', TQ + 'to_quads_count', ret='ToQuads',
-  stmt='$G = ($0, 0%Z, KV.ToQuads.to_quads_count $0 $1)')
+  stmt='$G = ($0, 0%Z, KV.ToQuads.to_quads_count $0 $1)', call='($0, 0%Z, KV.ToQuads.to_quads_count $0 $1)')
 F('cubicbez.rs', 'ToQuads', 'next', 'to_quads_next', TQ + 'to_quads_piece', trait='Iterator',
   stmt='$G = (if Z.eqb (snd (fst $0)) (snd $0) then (None, $0) else (Some (KV.ToQuads.to_quads_piece (fst (fst $0)) (snd $0) (snd (fst $0))), (fst (fst $0), Z.add (snd (fst $0)) 1, snd $0)))')
+# CubicBez::nearest: `for (t0, t1, q) in self.to_quads(accuracy)` consumes the ToQuads iterator (tr_drain of the generated
+# `next`), `q.nearest` is the model's quad_nearest; against the model's cubic_nearest wherever that is defined (None = the
+# panic of `best_r.unwrap()` / of `r_best.unwrap()` inside QuadBez::nearest)
+F('cubicbez.rs', 'CubicBez', 'nearest', 'cubic_nearest', NR + 'cubic_nearest', trait='ParamCurveNearest', bridge='Nearest_bridge', via='simulation',
+  stmt='match KV.Nearest.cubic_nearest $0 $1 $2 with Some tr_r => $G = tr_r | None => True end',
+  call='match KV.Nearest.cubic_nearest $0 $1 $2 with Some tr_r => tr_r | None => (f0, f0) end')
+# PathSeg::nearest: the dispatch, against the model's seg_nearest wherever that is defined
+F('bezpath.rs', 'PathSeg', 'nearest', 'seg_nearest', NR + 'seg_nearest', trait='ParamCurveNearest', bridge='Nearest_bridge', via='simulation',
+  stmt='match KV.Nearest.seg_nearest $0 $1 $2 with Some tr_r => $G = tr_r | None => True end')
 # ---------------------------------------------------------------- Segments::next by simulation (C07 and every path property)
 F('bezpath.rs', 'Segments<I>', 'next', 'segments_next', P + 'seg_step', trait='Iterator', bridge='Path_bridge', via='simulation',
   stmt='match KVBridge.Path_bridge.next_spec (snd $0) (fst $0) with Some tr_r => $G = tr_r | None => True end')
